@@ -41,8 +41,10 @@ type GhostSet struct {
 }
 
 type AtCall struct {
-	Callee string
-	Expr   *Clause
+	Callee  string
+	Expr    *Clause
+	Site    int       // `at call f#N`: only the N-th call site of f in source order (0 = every call site)
+	SitePos token.Pos // position of that call site
 }
 
 type Contract struct {
@@ -846,8 +848,16 @@ func (w *World) elaborate(c *Contract) error {
 				return fmt.Errorf("%s: expected `at call <callee>: assert <expr>`", rc.line)
 			}
 			callee := strings.TrimSpace(t[:i])
+			site := 0
+			if j := strings.LastIndex(callee, "#"); j >= 0 {
+				n, err := strconv.Atoi(callee[j+1:])
+				if err != nil || n < 1 {
+					return fmt.Errorf("%s: bad call-site ordinal in %q", rc.line, callee)
+				}
+				site, callee = n, callee[:j]
+			}
 			// the expression may mention the callee's formals: type-check in the callee contract scope later (dynamic)
-			c.AtCalls = append(c.AtCalls, &AtCall{Callee: callee, Expr: &Clause{Text: t[i+9:], Line: rc.line, Pos: pos}})
+			c.AtCalls = append(c.AtCalls, &AtCall{Callee: callee, Site: site, Expr: &Clause{Text: t[i+9:], Line: rc.line, Pos: pos}})
 		}
 	}
 	return nil
@@ -880,7 +890,7 @@ func (w *World) finishAtCalls() error {
 				if i := strings.LastIndex(short, "."); i >= 0 {
 					short = short[i+1:]
 				}
-			search:
+				var sites []token.Pos
 				for _, b := range c.Fn.Blocks {
 					for _, in := range b.Instrs {
 						ci, ok := in.(ssa.CallInstruction)
@@ -893,12 +903,25 @@ func (w *World) finishAtCalls() error {
 							name = f.String()
 						} else if cc.IsInvoke() {
 							name = cc.Method.Name()
+						} else {
+							name = funcValueName(cc.Value)
 						}
 						if name == ac.Callee || strings.HasSuffix(name, "."+short) || name == short {
-							pos = in.Pos()
-							break search
+							sites = append(sites, in.Pos())
 						}
 					}
+				}
+				sort.Slice(sites, func(i, j int) bool { return sites[i] < sites[j] })
+				if ac.Site > 0 {
+					if ac.Site > len(sites) {
+						c.Stale = fmt.Sprintf("%s: contract stale: no call site #%d of %s (found %d)", ac.Expr.Line, ac.Site, ac.Callee, len(sites))
+						w.stale = append(w.stale, c.Stale)
+						continue
+					}
+					ac.SitePos = sites[ac.Site-1]
+					pos = ac.SitePos
+				} else if len(sites) > 0 {
+					pos = sites[0]
 				}
 			}
 			if err := types.CheckExpr(w.fset, c.pkg.Types, pos, expr, info); err != nil {
@@ -911,6 +934,28 @@ func (w *World) finishAtCalls() error {
 		}
 	}
 	return nil
+}
+
+// funcValueName names a called function value by the source variable it was loaded from (parameter or local).
+func funcValueName(v ssa.Value) string {
+	switch x := v.(type) {
+	case *ssa.Parameter:
+		return x.Name()
+	case *ssa.UnOp:
+		if a, ok := x.X.(*ssa.Alloc); ok {
+			return a.Comment
+		}
+		if fa, ok := x.X.(*ssa.FieldAddr); ok {
+			if st, ok := fa.X.Type().Underlying().(*types.Pointer); ok {
+				if str, ok := st.Elem().Underlying().(*types.Struct); ok {
+					return str.Field(fa.Field).Name()
+				}
+			}
+		}
+	case *ssa.FreeVar:
+		return x.Name()
+	}
+	return ""
 }
 
 func splitTop(s string, sep byte) []string {
